@@ -358,6 +358,39 @@ func extractWakeup(repo string, fx *Facts) {
 }
 
 // wkLoopOrder describes the body of the `for` in startExecutionLoop.
+// wkInterruptDrains: the interrupt branch of the loop's select contains `if !timer.Stop() { select { case <-timer.C: default: } }`
+// (an expired timer's tick is taken out of the channel: with the timer-channel semantics selected by go.mod's `go 1.21` neither Stop nor
+// Reset does that, and a stale tick would end the next wait — also a back-off — at once). Set by wkLoopOrder.
+var wkInterruptDrains bool
+
+// wkIsTimerDrain: `select { case <-timer.C: default: }`, both bodies empty.
+func wkIsTimerDrain(s *ast.SelectStmt) bool {
+	if s.Body == nil || len(s.Body.List) != 2 {
+		return false
+	}
+	recv, def := false, false
+	for _, c := range s.Body.List {
+		cc, ok := c.(*ast.CommClause)
+		if !ok || len(cc.Body) != 0 {
+			return false
+		}
+		if cc.Comm == nil {
+			def = true
+			continue
+		}
+		es, ok := cc.Comm.(*ast.ExprStmt)
+		if !ok {
+			return false
+		}
+		u, ok := es.X.(*ast.UnaryExpr)
+		if !ok || u.Op != token.ARROW || !wkSel(u.X, "timer", "C") {
+			return false
+		}
+		recv = true
+	}
+	return recv && def
+}
+
 func wkLoopOrder(p *pkgInfo) ([]string, bool) {
 	fd := p.method("StdScheduler", "startExecutionLoop")
 	if fd == nil || fd.Body == nil {
@@ -438,11 +471,34 @@ func wkLoopOrder(p *pkgInfo) ([]string, bool) {
 					seenTimer = true
 				case wkSel(u.X, "sched", "interrupt"):
 					seenInterrupt = true
+					for _, b := range cc.Body {
+						ifs, ok := b.(*ast.IfStmt)
+						if !ok || ifs.Init != nil || ifs.Else != nil || len(ifs.Body.List) != 1 {
+							continue
+						}
+						not, ok := ifs.Cond.(*ast.UnaryExpr)
+						if !ok || not.Op != token.NOT {
+							continue
+						}
+						if _, ok := wkCall(not.X, "timer", "Stop"); !ok {
+							continue
+						}
+						if sel, ok := ifs.Body.List[0].(*ast.SelectStmt); ok && wkIsTimerDrain(sel) {
+							wkInterruptDrains = true
+						}
+					}
 					// the branch must fall out of the select into the next iteration
 					for _, b := range cc.Body {
 						ast.Inspect(b, func(n ast.Node) bool {
-							switch n.(type) {
-							case *ast.BranchStmt, *ast.ReturnStmt, *ast.ForStmt, *ast.SelectStmt, *ast.GoStmt:
+							switch x := n.(type) {
+							case *ast.SelectStmt:
+								// the one select allowed here: the non-blocking drain of the expired timer's channel,
+								// `select { case <-timer.C: default: }` with empty bodies (it receives from nothing else and cannot block)
+								if wkIsTimerDrain(x) {
+									return false
+								}
+								rereads = false
+							case *ast.BranchStmt, *ast.ReturnStmt, *ast.ForStmt, *ast.GoStmt:
 								rereads = false
 							}
 							return true
@@ -506,6 +562,7 @@ func renderWakeup(fx *Facts) string {
 	}
 	fmt.Fprintf(&b, "\n/-- statements of the loop body of `startExecutionLoop`, in order -/\ndef loopOrder : List String := %s\n", leanStrList(wf.LoopOrder))
 	fmt.Fprintf(&b, "/-- the loop starts with `Size()`, ends with the `select`, the interrupt branch falls through to the next iteration,\n    and nothing else receives from `interrupt` -/\ndef loopRereads : Bool := %s\n", wkBool(wf.LoopRereads))
+	fmt.Fprintf(&b, "/-- the interrupt branch stops the timer and, if it had already expired, takes its tick out of the channel:\n    `if !timer.Stop() { select { case <-timer.C: default: } }` (no stale tick can end a later wait early) -/\ndef interruptStopsAndDrains : Bool := %s\n", wkBool(wkInterruptDrains))
 	b.WriteString("\nend Generated.Wakeup\n")
 	return b.String()
 }
